@@ -701,6 +701,16 @@ func impl() {
 					return
 				}
 				res = "ok " + vproto.GeomToks(r) + withinProbe(r, a, b) + cellAnswers(r, cells)
+				// Area() of the result as the library computes it (judged against the exact area of the
+				// result's point set when the area certificate accepts its rings: C01_area_certificate)
+				if rr, isPoly := r.(geom.Polygon); isPoly {
+					ar := rr.Area()
+					if before != toks2(a, b) {
+						res = "mutated by-Area-of-the-result"
+						return
+					}
+					res += " ar " + vproto.F2H(ar)
+				}
 				return
 			}
 			var sb strings.Builder
